@@ -142,7 +142,7 @@ func judgeRefs(c *Ctx, sc *Scenario, prop string) *Violation {
 	for _, r := range res.Run.RevListStdin {
 		gotRoots[r] = true
 	}
-	if d := setDiff(wantRoots, gotRoots); d != "" {
+	if d := setDiff(wantRoots, gotRoots); d != "" && !sc.Plan.RealPeers {
 		return &Violation{pfx + "selection:roots-fed-to-rev-list", d + "; options " + describeOpts(p.RefOpts)}
 	}
 	// (3) census restricted accordingly, and the tallies
@@ -263,6 +263,12 @@ func judgeRefs(c *Ctx, sc *Scenario, prop string) *Violation {
 		}
 	}
 	c.Stats.Sample(map[string]interface{}{"args": sc.Inv.Args, "refs": refNames(refs), "walked": nw, "tally": wantTally, "config_local": firstBytes([]byte(w.Config.Local), 400)})
+	if len(res.Run.Unmodelled) > 0 && !sc.Plan.RealPeers {
+		// git-sizer passed an option the stub does not model: real git judges the same scenario
+		r := *sc
+		r.Plan = Plan{RealPeers: true}
+		return judgeRefs(c, &r, prop)
+	}
 	return nil
 }
 
